@@ -694,7 +694,10 @@ def meadows_loader():
     out['ml_single_vars'] = enc(','.join(const(e, str) for e in loops[0].iter.elts))
     asg = {u(n.targets[0]): n.value for n in ast.walk(fn) if isinstance(n, ast.Assign)}
     need(u(asg['utvs']).startswith('numpy.stack([data[v] for v in utv_vars])'), 'utvs of the multi-participant file')
-    sv = asg['stim_vars']
+    svs = [n.value for n in ast.walk(fn) if isinstance(n, ast.Assign) and u(n.targets[0]) == 'stim_vars'
+           and isinstance(n.value, ast.ListComp)]
+    need(len(svs) == 1, 'one comprehension assigned to stim_vars (see also ml_mat_same)')
+    sv = svs[0]
     need(isinstance(sv, ast.ListComp) and u(sv.generators[0].iter) == 'data.keys()'
          and len(sv.generators[0].ifs) == 1, 'stim_vars comprehension')
     t = sv.generators[0].ifs[0]
@@ -729,6 +732,40 @@ def meadows_loader():
         need(frag in src, f'json loader: `{frag}` not found')
     out['ml_json_type'] = enc('multiarrange')
     return out
+
+
+def meadows_mat_filter():
+    """load_rdms_comps_mat, multi-participant branch: every participant has its own
+    `stimuli_<p>` / `rdmutv_<p>` pair, the vector in that participant's own stimulus order, and only
+    the first participant's list labels the result — so the branch must keep exactly the participants
+    whose list passes a test against the first one.  The whole statement sequence of the branch is
+    matched; code 1 = `numpy.array_equal(data[v], stimuli)`; anything else is underivable."""
+    fn = _func('io/meadows.py', 'load_rdms_comps_mat')
+    ifs = [n for n in _body(fn) if isinstance(n, ast.If)]
+    need(len(ifs) == 1 and u(ifs[0].test) == "info['participant_scope'] == 'single'",
+         "if info['participant_scope'] == 'single': ... else: ...")
+    br = ifs[0].orelse
+    need(len(br) == 9, f'multi-participant branch has {len(br)} statements, expected 9')
+    heads = [u(x).split(' = ')[0] if isinstance(x, ast.Assign) else type(x).__name__ for x in br]
+    need(heads == ['stim_vars', 'stimuli', 'matching', 'If', 'stim_vars', 'pnames', 'utv_vars', 'utvs',
+                   'tnames'], f'statement order of the multi-participant branch: {heads}')
+    need(u(br[1]) == 'stimuli = data[stim_vars[0]]', 'labels = the first participant\'s list')
+    m = br[2].value
+    need(isinstance(m, ast.ListComp) and u(m.elt) == 'v' and len(m.generators) == 1
+         and u(m.generators[0].target) == 'v' and u(m.generators[0].iter) == 'stim_vars'
+         and len(m.generators[0].ifs) == 1, 'matching = [v for v in stim_vars if <test>]')
+    test = u(m.generators[0].ifs[0])
+    need(test in ('numpy.array_equal(data[v], stimuli)', 'numpy.array_equal(stimuli, data[v])'),
+         f'unknown participant test `{test}`')
+    w = br[3]
+    need(u(w.test) == 'len(matching) < len(stim_vars)' and not w.orelse and len(w.body) == 1
+         and u(w.body[0]).startswith('warnings.warn('), 'warning when a participant is skipped')
+    need(u(br[4]) == 'stim_vars = matching', 'stim_vars = matching')
+    need(u(br[5].value.generators[0].iter) == 'stim_vars' and u(br[6].value.generators[0].iter) == 'pnames'
+         and u(br[7]).startswith('utvs = numpy.stack([data[v] for v in utv_vars])')
+         and u(br[8]) == "tnames = [info['task_name']] * len(pnames)",
+         'names / vectors / task names follow from the kept participants')
+    return {'ml_mat_same': 1}
 
 
 def meadows_json_loop():
@@ -1025,6 +1062,7 @@ def _derive():
                 'ml_stim_prefix', 'ml_pname_join', 'ml_pname_from', 'ml_pname_split', 'ml_utv_prefix',
                 'ml_utv_from', 'ml_utv_to', 'ml_json_type'], meadows_loader)
     emit_group(['ml_json_same'], meadows_json_loop)
+    emit_group(['ml_mat_same'], meadows_mat_filter)
     emit_group(['sp_name_sep', 'sp_run_tok', 'sp_run_lo', 'sp_run_hi_back', 'sp_name_tok',
                 'sp_reloc_from', 'sp_reloc_to', 'sp_reloc_anchor'], spm_constants)
 
